@@ -2,6 +2,7 @@ import SaphyrModel.Spec.Positions
 import SaphyrModel.Sc.State
 import SaphyrModel.Proofs.SpansRun
 import SaphyrModel.Props.C17
+import SaphyrModel.Proofs.Counting
 /-! # C12 — Reported positions are true positions
 
 **Parser half, proved for every token list** (`event_spans_are_token_spans` and its corollaries): the
@@ -132,5 +133,96 @@ example : Sp.SpanOf [⟨⟨⟨0, 1, 0⟩, ⟨0, 1, 0⟩⟩, .streamStart⟩, ⟨
 example : lineCol "ab\ncd".toList 4 = (2, 1) := by decide
 example : lineCol "ab\r\ncd".toList 5 = (2, 1) := by decide
 example : lineCol "ab\rcd".toList 4 = (2, 1) := by decide
+
+theorem take_split (A B : Str) (k : Nat) (h : k + B.length = (A ++ B).length) : (A ++ B).take k = A := by
+  have : k = A.length := by simp only [List.length_append] at h; omega
+  subst this; simp
+
+theorem hdr_nobreak (hd : C05T.Hdr) : ∀ c ∈ hd.txt, isBreak c = false := by
+  cases hd <;> simp [C05T.Hdr.txt] <;> decide
+
+open SaphyrModel.C14L SaphyrModel.C05 SaphyrModel.C05T SaphyrModel.C12C in
+/-- **The marks of a literal block scalar token are true positions — for every such scalar.** Let the whole
+    input be `pre` (what the scanner has consumed, ending with the `|`) followed by what remains: a literal block
+    scalar as in `C05.literal_block_scalar_token` (header ``/`-`/`+`, any list of content lines, any spelling of
+    every break) and a continuation. If the scanner's own mark is the true position of the end of `pre` — its
+    index is the number of characters consumed, its line and column are what counting line breaks and characters
+    over `pre` gives — then the start mark and the end mark of the token the scanner returns, and the scanner's
+    mark afterwards, are true positions too: each index lies within the input, and line and column are exactly
+    those obtained by counting (`Spec.lineCol`) up to that index. -/
+theorem literal_block_token_marks_true (pre : Str) (hpre : ∀ p, pre ≠ p ++ ['\r'])
+    (sm : Marker) (hd : Hdr) (b0 : Brk) (ind : Nat) (hind : ind ≠ 0) (tail : Str)
+    (ht1 : tail.headD '\x00' ≠ ' ') (ht2 : isBreak (tail.headD '\x00') = false) (ls : List (Str × Brk)) (l : Str) (b : Brk)
+    (hl : GoodLine l) (hl1 : l.headD '\x00' ≠ ' ') (hls : ∀ p ∈ ls, GoodLine p.1) (u : Sc)
+    (hI : (u.indent + 1).toNat ≤ ind) (hk : u.inp.kind = .str)
+    (hi : u.inp.iter = hd.txt ++ (b0.txt ++ (List.replicate ind ' ' ++ (l ++ (b.txt ++ restLinesB ind ls tail)))))
+    (hidx : u.mark.index = pre.length) (hlc : advanceLC pre (1, 0) = (u.mark.line, u.mark.col))
+    (tok : Token) (u' : Sc) (h : scanBlockScalarBody true sm u = .ok (tok, u')) :
+    markTrue (pre ++ u.inp.iter) tok.span.start = true ∧ markTrue (pre ++ u.inp.iter) tok.span.stop = true ∧
+    markTrue (pre ++ u.inp.iter) u'.mark = true := by
+  rcases literal_block_token sm hd b0 ind hind tail ht1 ht2 ls l b hl hl1 hls u u.mark.line u.mark.col u.indent
+      (pre.length + u.inp.iter.length) hI ⟨hk, hi, rfl, rfl, rfl, by rw [hidx, hi]⟩ with
+    ⟨p, hp⟩ | ⟨tok', w, e, ⟨_, x2, x3, x4, x5, x6, x7⟩, _, _, y3, y4, y5⟩
+  · rw [hp] at h; cases h
+  rw [e] at h; cases h
+  obtain ⟨n, rfl⟩ : ∃ n, ind = n + 1 := ⟨ind - 1, by omega⟩
+  have hN : (pre ++ u.inp.iter).length = pre.length + u.inp.iter.length := List.length_append
+  -- the text in front of the first content character, and in front of the continuation
+  have hA : pre ++ u.inp.iter = (pre ++ (hd.txt ++ (b0.txt ++ List.replicate (n + 1) ' '))) ++ (l ++ (b.txt ++ restLinesB (n + 1) ls tail)) := by
+    rw [hi]; simp only [List.append_assoc]
+  have hB : pre ++ u.inp.iter = (pre ++ (hd.txt ++ (b0.txt ++ (linesTxt (n + 1) ((l, b) :: ls) ++ [])))) ++ tail := by
+    rw [hi, restLinesB_eq]; simp only [linesTxt, List.append_assoc, List.append_nil]
+  have hsp : (List.replicate (n + 1) ' ').headD '\x00' ≠ '\n' := by simp [List.replicate_succ]
+  have hcount1 : advanceLC (pre ++ (hd.txt ++ (b0.txt ++ List.replicate (n + 1) ' '))) (1, 0) = (u.mark.line + 1, n + 1) := by
+    rw [advanceLC_append_left _ _ _ hpre, hlc, advanceLC_nobreak_append _ _ _ _ (hdr_nobreak hd),
+      advanceLC_append _ hsp, advanceLC_brk, advanceLC_nobreak _ _ _ (replicate_nobreak (n + 1))]
+    simp
+  have hlt : (linesTxt (n + 1) ((l, b) :: ls) ++ ([] : Str)).headD '\x00' ≠ '\n' :=
+    linesTxt_head (n + 1) hind [] (by simp) ((l, b) :: ls)
+  have hcount2 : advanceLC (pre ++ (hd.txt ++ (b0.txt ++ (linesTxt (n + 1) ((l, b) :: ls) ++ [])))) (1, 0)
+      = (u.mark.line + 1 + ls.length + 1, 0) := by
+    rw [advanceLC_append_left _ _ _ hpre, hlc, advanceLC_nobreak_append _ _ _ _ (hdr_nobreak hd),
+      advanceLC_append _ hlt, advanceLC_brk,
+      advanceLC_lines (n + 1) hind [] (by simp) ((l, b) :: ls) _ (by
+        intro q hq
+        rcases List.mem_cons.mp hq with rfl | hq
+        · exact hl
+        · exact hls q hq)]
+    simp only [advanceLC, List.length_cons]
+    congr 1
+  have hstart : markTrue (pre ++ u.inp.iter) tok.span.start = true := by
+    unfold markTrue lineCol
+    have hle : tok.span.start.index ≤ (pre ++ u.inp.iter).length := by
+      rw [hN]
+      omega
+    have htake : (pre ++ u.inp.iter).take tok.span.start.index = pre ++ (hd.txt ++ (b0.txt ++ List.replicate (n + 1) ' ')) := by
+      rw [hA]; apply take_split; rw [← hA, hN]; exact x6
+    rw [htake, hcount1, x2, x3]
+    simp
+    omega
+  have hstop : ∀ m : Marker, m.index + tail.length = pre.length + u.inp.iter.length → m.line = u.mark.line + 1 + ls.length + 1 →
+      m.col = 0 → markTrue (pre ++ u.inp.iter) m = true := by
+    intro m h1 h2 h3
+    unfold markTrue lineCol
+    have hle : m.index ≤ (pre ++ u.inp.iter).length := by
+      rw [hN]
+      omega
+    have htake : (pre ++ u.inp.iter).take m.index = pre ++ (hd.txt ++ (b0.txt ++ (linesTxt (n + 1) ((l, b) :: ls) ++ []))) := by
+      rw [hB]; apply take_split; rw [← hB, hN]; exact h1
+    rw [htake, hcount2, h2, h3]
+    simp
+    omega
+  exact ⟨hstart, hstop _ x7 x4 x5, hstop _ y5 y3 y4⟩
+
+/-- non-vacuity: after `a: |` (index 4, line 1, column 4), the scalar `-`, CR LF, `  ab` LF, `   c` CR, then `x`:
+    the token starts at index 9 (line 2, column 2), ends at index 17 (line 4, column 0); both marks are true -/
+example :
+    (match scanBlockScalarBody true ⟨3, 1, 3⟩
+        { mkSc .str 0 ['-','\r','\n',' ',' ','a','b','\n',' ',' ',' ','c','\r','x'] with indent := 0, mark := ⟨4, 1, 4⟩ } with
+     | .ok (tok, _) =>
+       markTrue (['a',':',' ','|'] ++ ['-','\r','\n',' ',' ','a','b','\n',' ',' ',' ','c','\r','x']) tok.span.start &&
+       markTrue (['a',':',' ','|'] ++ ['-','\r','\n',' ',' ','a','b','\n',' ',' ',' ','c','\r','x']) tok.span.stop &&
+       tok.span.start.index == 9 && tok.span.stop.index == 17
+     | _ => false) = true := by decide +kernel
 
 end SaphyrModel.C12
